@@ -1,1 +1,646 @@
-//! C18: not implemented yet.
+//! C18 — server answers echo the request correctly and reflect nothing else.
+//!
+//! Engine E-IN. The shared request grammar G (c16.rs) is built with *tagged* contents:
+//! every header field and every extension-field body of the request carries bytes that
+//! are unique to that position, so any copy of request material in the answer can be
+//! attributed. Every request is handled by the real `Server::handle` (4096-byte buffer,
+//! so that nothing is hidden by C17's size issue) under chosen synchronisation states and
+//! configurations; the answer is taken apart by the independent walker of c16.rs
+//! (authenticator opened with the client's s2c key) and compared with the statement:
+//!
+//! * every answer: server mode, the request's version, transmit timestamp / NTPv5 client
+//!   cookie echoed (and occurring nowhere else);
+//! * time answers: the request's poll; reception time = the time handed to `handle`;
+//!   transmit time = the clock; stratum, leap bits, reference id, root delay, root
+//!   dispersion (= sqrt of the root variance at reception time) and precision of the
+//!   server's current snapshot; the remaining header bytes (reference timestamp, NTPv5
+//!   timescale/era/flags) must equal those of the answer to a canonical poll in the same
+//!   state, i.e. be independent of the request (exception, recorded as an assumption: the
+//!   NTPv5 upgrade marker in the reference timestamp of a plain NTPv4 exchange);
+//! * DENY / RATE / NTS-NAK answers: stratum 0, zero receive and transmit timestamps, every
+//!   other header byte equal to the canonical answer of that kind;
+//! * extension fields: only unique identifiers whose body is the body of a request
+//!   identifier (plus zero padding), NTPv5 reference-id responses that equal the server's
+//!   Bloom filter bytes at the requested window, the draft identification, zero padding,
+//!   and — only for requests that carry a correct authenticator — the NTS authenticator
+//!   whose plaintext contains cookies only;
+//! * no 8-byte tag of any other request content (header garbage, unknown fields, cookie,
+//!   nonce, ciphertext, encrypted-part plaintext, MAC) occurs anywhere in the answer or in
+//!   its decrypted part;
+//! * (reading of "echo correctly") for RFC-7822-clean requests every unique identifier
+//!   of a plain request, resp. every identifier in front of the authenticator, is echoed.
+use std::collections::BTreeMap;
+
+use super::c16::{
+    AField, Answer, AuthState, BIG_BUF, Built, CLOCK_TS, Cfg, DRAFT, Findings, Fld, Handled, KeyEnv, Kind, Local,
+    MAX_DATAGRAM, Opened, Out, RECV_TS, Req, Session, Sync, T_AUTH, T_COOKIE, T_DRAFT, T_PAD, T_REFRESP, T_UID,
+    UPGRADE_TS, Zone, bloom_byte, build, client_ip, find, grammar, key_env, kind_key, make_server, open_nts, run_handle,
+    walk,
+};
+use super::common::{self, Ctx};
+use crate::Server;
+
+/// header bytes of the canonical answers of one (configuration, state): (version, kind) -> 48 bytes
+type Baselines = BTreeMap<(u8, Kind), Vec<u8>>;
+
+fn baselines(cfg: Cfg, sync: &Sync, keys: &KeyEnv) -> Baselines {
+    let mut m = Baselines::new();
+    let mut server = make_server(cfg, sync, &keys.server);
+    let canon = [
+        "v3.m3.p6.l0.g0.a0||m0",
+        "v4.m3.p6.l0.g0.a0||m0",
+        "v5.m3.p6.l0.g0.a0|d1|m0",
+        "v4.m3.p6.l0.g0.a0|u32,cG0,Aok()|m0",
+        "v5.m3.p6.l0.g0.a0|u32,cG0,d1,Aok()|m0",
+        "v4.m3.p6.l0.g0.a0|u32,cC0,Aok()|m0",
+        "v5.m3.p6.l0.g0.a0|u32,cC0,d1,Aok()|m0",
+    ];
+    for code in canon {
+        let r = Req::parse(code).expect("canonical request");
+        let mut b = build(&r, keys);
+        // the canonical requests carry *other* header garbage than the grammar's requests, so
+        // that a header byte copied from the request differs between the two (this breaks the
+        // authenticator of the NTS ones on purpose: they are the NTS-NAK baselines)
+        let garbage: Vec<usize> = if r.ver == 5 {
+            [1usize, 3, 13].into_iter().chain(4..12).chain(16..24).chain(32..48).collect()
+        } else {
+            [1usize, 3].into_iter().chain(4..24).chain(32..40).collect()
+        };
+        for i in garbage {
+            b.bytes[i] ^= 0x5F;
+        }
+        if r.ver == 5 {
+            b.bytes[12] = 1;
+            b.bytes[15] = 0;
+        }
+        if cfg == Cfg::RateLimited {
+            server = make_server(cfg, sync, &keys.server);
+        }
+        if let Ok(Handled {
+            out: Out::Respond(a), ..
+        }) = run_handle(&mut server, client_ip(0), &b.bytes, BIG_BUF)
+        {
+            if let Ok(w) = walk(&a) {
+                m.entry((w.ver, w.kind())).or_insert_with(|| a[..48].to_vec());
+            }
+        }
+    }
+    m
+}
+
+struct Verdicts {
+    v: Vec<(&'static str, String)>,
+}
+
+impl Verdicts {
+    fn bad(&mut self, class: &'static str, msg: String) {
+        self.v.push((class, msg));
+    }
+}
+
+fn short_to_seconds(b: &[u8]) -> f64 {
+    u32::from_be_bytes(b.try_into().unwrap()) as f64 / 65536.0
+}
+
+fn time32_to_seconds(b: &[u8]) -> f64 {
+    u32::from_be_bytes(b.try_into().unwrap()) as f64 / (1u64 << 28) as f64
+}
+
+fn expected_root_delay(sync: &Sync) -> f64 {
+    sync.root_delay_exp.map(|e| 2f64.powi(e as i32)).unwrap_or(0.0)
+}
+
+fn expected_root_dispersion(sync: &Sync) -> f64 {
+    // the snapshot's variance polynomial starts 16 s before the reception time (c16::server_info)
+    (sync.var_base + 16.0 * sync.var_linear).sqrt()
+}
+
+fn check_header(v: &mut Verdicts, ans: &Answer, req: &[u8], upgrade_req: bool, sync: &Sync, base: &Baselines) {
+    let raw = &ans.raw;
+    let req_ver = (req[0] >> 3) & 7;
+    let kind = ans.kind();
+    if ans.mode != 4 {
+        v.bad("C18:mode", format!("answer mode {}", ans.mode));
+    }
+    if ans.ver != req_ver {
+        v.bad("C18:version", format!("answer version {} to a version {} request", ans.ver, req_ver));
+    }
+    // the echoed identifier
+    let (id_req, id_name) = if req_ver == 5 { (&req[24..32], "client cookie") } else { (&req[40..48], "transmit timestamp") };
+    if &raw[24..32] != id_req {
+        v.bad(
+            "C18:origin",
+            format!("answer bytes 24..32 = {} but the request's {id_name} is {}", common::hex(&raw[24..32]), common::hex(id_req)),
+        );
+    }
+    let baseline = base.get(&(ans.ver, kind));
+    // bytes that the statement does not pin to a value must not depend on the request
+    let mut free: Vec<usize> = vec![];
+    match kind {
+        Kind::Time => {
+            if ans.leap != sync.leap_bits() {
+                v.bad("C18:leap", format!("leap bits {} but the server's leap state is {}", ans.leap, sync.leap_bits()));
+            }
+            if ans.stratum != sync.stratum {
+                v.bad("C18:stratum", format!("stratum {} but the server's is {}", ans.stratum, sync.stratum));
+            }
+            if ans.poll != req[2] {
+                v.bad("C18:poll", format!("poll {} but the request's is {}", ans.poll, req[2]));
+            }
+            if raw[3] as i8 != sync.precision_exp {
+                v.bad("C18:precision", format!("precision {} but the server's is {}", raw[3] as i8, sync.precision_exp));
+            }
+            let (delay, disp, tol) = if ans.ver == 5 {
+                (time32_to_seconds(&raw[4..8]), time32_to_seconds(&raw[8..12]), 2f64.powi(-26))
+            } else {
+                (short_to_seconds(&raw[4..8]), short_to_seconds(&raw[8..12]), 2f64.powi(-15))
+            };
+            if (delay - expected_root_delay(sync)).abs() > tol {
+                v.bad("C18:root-delay", format!("root delay {delay} s but the server's is {} s", expected_root_delay(sync)));
+            }
+            if (disp - expected_root_dispersion(sync)).abs() > tol {
+                v.bad(
+                    "C18:root-dispersion",
+                    format!("root dispersion {disp} s but the server's is {} s", expected_root_dispersion(sync)),
+                );
+            }
+            if raw[32..40] != RECV_TS.to_be_bytes() {
+                v.bad("C18:receive-timestamp", format!("receive timestamp {} is not the reception time", common::hex(&raw[32..40])));
+            }
+            if raw[40..48] != CLOCK_TS.to_be_bytes() {
+                v.bad("C18:transmit-timestamp", format!("transmit timestamp {} is not the clock's time", common::hex(&raw[40..48])));
+            }
+            if ans.ver == 5 {
+                free.extend(12..16); // timescale, era, flags
+                if raw[16..24] == req[16..24] {
+                    v.bad("C18:reflects-request-content", "the request's server-cookie field came back".into());
+                }
+            } else {
+                if raw[12..16] != sync.refid.to_be_bytes() {
+                    v.bad(
+                        "C18:reference-id",
+                        format!("reference id {} but the server's is {:08x}", common::hex(&raw[12..16]), sync.refid),
+                    );
+                }
+                let marker_ok = ans.ver == 4 && upgrade_req && &raw[16..24] == UPGRADE_TS;
+                if !marker_ok {
+                    free.extend(16..24); // reference timestamp
+                }
+            }
+        }
+        Kind::Deny | Kind::Rate | Kind::Nak | Kind::OtherKiss => {
+            if raw[32..40] != [0; 8] || raw[40..48] != [0; 8] {
+                v.bad(
+                    "C18:kiss-has-timestamps",
+                    format!("{kind:?} answer carries receive {} transmit {}", common::hex(&raw[32..40]), common::hex(&raw[40..48])),
+                );
+            }
+            if kind == Kind::OtherKiss {
+                v.bad("C18:unknown-kiss", format!("stratum 0 answer with code {}", common::hex(&raw[12..16])));
+            }
+            free.push(0);
+            free.extend(1..16);
+            if ans.ver == 5 {
+                if raw[16..24] == req[16..24] {
+                    v.bad("C18:reflects-request-content", "the request's server-cookie field came back".into());
+                }
+            } else {
+                free.extend(16..24);
+            }
+        }
+    }
+    if let Some(bl) = baseline {
+        for i in free {
+            let (a, b) = if i == 0 { (raw[0] & 0xC7, bl[0] & 0xC7) } else { (raw[i], bl[i]) };
+            if a != b {
+                v.bad(
+                    "C18:header-depends-on-request",
+                    format!(
+                        "{kind:?} answer header byte {i} is {a:#04x}, the canonical poll in the same state gets {b:#04x} (request byte {:#04x})",
+                        req.get(i).copied().unwrap_or(0)
+                    ),
+                );
+                break;
+            }
+        }
+    }
+}
+
+/// multiset matching of answer identifiers against request identifiers
+fn match_uid(body: &[u8], pool: &mut Vec<Option<Vec<u8>>>) -> bool {
+    for slot in pool.iter_mut() {
+        if let Some(req) = slot {
+            if body.len() >= req.len() && body[..req.len()] == req[..] && body[req.len()..].iter().all(|b| *b == 0) {
+                *slot = None;
+                return true;
+            }
+        }
+    }
+    false
+}
+
+fn check_fields(v: &mut Verdicts, ans: &Answer, opened: &Result<Opened, String>, b: &Built, clean: bool) {
+    let mut pool: Vec<Option<Vec<u8>>> = b.uids.iter().map(|(body, _, _)| Some(body.clone())).collect();
+    let mut refpool: Vec<Option<(usize, usize)>> = b.refreqs.iter().map(|(l, o, _, _)| Some((*l, *o))).collect();
+    let has_auth = ans.fields.iter().any(|f| f.ty == T_AUTH);
+    let mut echoed: Vec<Vec<u8>> = vec![];
+    let mut one = |v: &mut Verdicts, f: &AField, encrypted: bool| {
+        if f.pad.iter().any(|x| *x != 0) {
+            v.bad("C18:padding-not-zero", format!("field {:04x} at {} has non-zero padding {}", f.ty, f.off, common::hex(&f.pad)));
+        }
+        match f.ty {
+            T_UID if !encrypted => {
+                if match_uid(&f.body, &mut pool) {
+                    echoed.push(f.body.clone());
+                } else {
+                    v.bad(
+                        "C18:uid-not-from-request",
+                        format!("unique identifier {} in the answer is not (one more copy of) an identifier of the request", common::hex(&f.body)),
+                    );
+                }
+            }
+            T_REFRESP if !encrypted && ans.ver == 5 => {
+                let mut ok = false;
+                for slot in refpool.iter_mut() {
+                    if let Some((l, o)) = slot {
+                        if *l == f.body.len() && *o + *l <= 512 && f.body.iter().enumerate().all(|(i, x)| *x == bloom_byte(*o + i)) {
+                            *slot = None;
+                            ok = true;
+                            break;
+                        }
+                    }
+                }
+                if !ok {
+                    v.bad(
+                        "C18:refid-response-wrong",
+                        format!("reference-id response of {} bytes does not equal a requested window of the server's filter", f.body.len()),
+                    );
+                }
+            }
+            T_DRAFT if !encrypted && ans.ver == 5 => {
+                if f.body != DRAFT {
+                    v.bad("C18:unexpected-field", format!("draft identification {:?}", String::from_utf8_lossy(&f.body)));
+                }
+            }
+            T_PAD if !encrypted && ans.ver == 5 => {
+                if f.body.iter().any(|x| *x != 0) {
+                    v.bad("C18:padding-not-zero", format!("padding field at {} is not zero", f.off));
+                }
+            }
+            T_COOKIE if encrypted => {}
+            T_AUTH if !encrypted => {
+                if !matches!(b.auth, AuthState::Valid | AuthState::Ambiguous) {
+                    v.bad(
+                        "C18:unexpected-field",
+                        format!("authenticator in the answer to a request whose authentication state is {:?}", b.auth),
+                    );
+                }
+            }
+            ty => v.bad(
+                if encrypted { "C18:unexpected-encrypted-field" } else { "C18:unexpected-field" },
+                format!("field type {ty:04x} ({} bytes, body {}) in the answer", f.declared, common::hex(&f.body[..f.body.len().min(24)])),
+            ),
+        }
+    };
+    for f in &ans.fields {
+        one(v, f, false);
+    }
+    if has_auth {
+        match opened {
+            Ok(o) => {
+                for f in &o.inner {
+                    one(v, f, true);
+                }
+            }
+            Err(e) => v.bad("C18:unopenable-authenticator", format!("the answer's authenticator cannot be inspected: {e}")),
+        }
+    }
+    // lower bound: identifiers that must have been echoed
+    if clean && b.auth != AuthState::Ambiguous {
+        for (body, zone, _) in &b.uids {
+            // only identifiers in front of the authenticator (or of a plain request): whether
+            // unauthenticated trailing identifiers are echoed differs by answer type
+            let must = matches!(zone, Zone::Pre);
+            if must {
+                if let Some(p) = echoed.iter().position(|e| e.len() >= body.len() && e[..body.len()] == body[..]) {
+                    echoed.remove(p);
+                } else {
+                    v.bad("C18:uid-echo-missing", format!("unique identifier {} of the request is not echoed", common::hex(body)));
+                }
+            }
+        }
+    }
+}
+
+fn check_reflection(v: &mut Verdicts, ans: &Answer, opened: &Result<Opened, String>, b: &Built) {
+    let mut views: Vec<&[u8]> = vec![&ans.raw];
+    if let Ok(o) = opened {
+        views.push(&o.plaintext);
+    }
+    for t in &b.forbidden {
+        for view in &views {
+            if let Some(p) = find(view, t) {
+                v.bad(
+                    "C18:reflects-request-content",
+                    format!("request bytes {} (not an identifier field) occur at offset {p} of the answer{}", common::hex(t), if view.len() == ans.raw.len() { "" } else { "'s decrypted part" }),
+                );
+                return;
+            }
+        }
+    }
+    // the echoed identifier occurs exactly once (at 24..32)
+    if b.bytes.len() >= 48 {
+        let id = if (b.bytes[0] >> 3) & 7 == 5 { &b.bytes[24..32] } else { &b.bytes[40..48] };
+        let n = ans.raw.windows(8).filter(|w| *w == id).count() + views.get(1).map(|p| p.windows(8).filter(|w| *w == id).count()).unwrap_or(0);
+        if n > 1 {
+            v.bad("C18:reflects-request-content", format!("the request's identifier occurs {n} times in the answer"));
+        }
+    }
+}
+
+/// RFC 7822-clean: every field >= 16 bytes, the last one >= 28 when no MAC follows, MAC of
+/// 0/20/24 bytes (v4); v5: no junk tail. Only for such requests is the set of fields the
+/// server must have seen unambiguous.
+fn is_clean(req: &Req, b: &Built) -> bool {
+    match req.ver {
+        5 => req.mac == 0,
+        4 => {
+            b.spans.iter().all(|s| s.wire >= 16)
+                && matches!(req.mac, 0 | 20 | 24)
+                && (req.mac != 0 || b.spans.last().map(|s| s.wire >= 28).unwrap_or(true))
+        }
+        _ => false,
+    }
+}
+
+struct EnvC {
+    cfg: Cfg,
+    sync: Sync,
+    keys: KeyEnv,
+    base: Baselines,
+}
+
+fn judge(
+    findings: &Findings,
+    mut loc: Option<&mut Local>,
+    env: &EnvC,
+    server: &mut Server<super::c16::MockClock>,
+    req: &Req,
+    b: &Built,
+    cut: usize,
+    full_len: usize,
+) -> String {
+    let trace = || format!("{};{};k{};{};cut={}", env.cfg.code(), env.sync.code(), env.keys.rotated as u8, req.code(), cut);
+    let mut inc = |k: &'static str| {
+        if let Some(l) = loc.as_deref_mut() {
+            l.inc(k);
+        }
+    };
+    inc("evaluations");
+    let handled = match run_handle(server, client_ip(0), &b.bytes, BIG_BUF) {
+        Ok(h) => h,
+        Err(p) => {
+            findings.report("C18:panic", b.bytes.len(), || format!("Server::handle panicked: {p}"), trace);
+            return format!("panic {p}");
+        }
+    };
+    let raw = match handled.out {
+        Out::Ignore => {
+            inc("ignored");
+            return "ignored".into();
+        }
+        Out::Respond(a) => a,
+    };
+    inc("answered");
+    let ans = match walk(&raw) {
+        Ok(a) => a,
+        Err(e) => {
+            findings.report(
+                "C18:answer-malformed",
+                b.bytes.len(),
+                || format!("answer cannot be walked ({e}): {}", common::hex(&raw)),
+                trace,
+            );
+            return format!("malformed answer: {e}");
+        }
+    };
+    let kind = ans.kind();
+    inc(kind_key(kind));
+    let has_auth = ans.fields.iter().any(|f| f.ty == T_AUTH);
+    let sess = req.session();
+    let opened = if has_auth { open_nts(&ans, sess.s2c().as_ref()) } else { Err("no authenticator".into()) };
+    if has_auth {
+        inc("answers_nts");
+    }
+    let mut v = Verdicts {
+        v: vec![],
+    };
+    check_header(&mut v, &ans, &b.bytes, req.upgrade && req.ver == 4, &env.sync, &env.base);
+    let clean = cut == full_len && is_clean(req, b);
+    if clean {
+        inc("clean_requests_answered");
+    }
+    check_fields(&mut v, &ans, &opened, b, clean);
+    check_reflection(&mut v, &ans, &opened, b);
+    let n_uid = ans.fields.iter().filter(|f| f.ty == T_UID).count();
+    if n_uid > 0 {
+        inc("answers_echoing_uid");
+    }
+    if ans.fields.iter().any(|f| f.ty == T_REFRESP) {
+        inc("answers_with_refid_response");
+    }
+    if req.upgrade && ans.ver == 4 && &raw[16..24] == UPGRADE_TS {
+        inc("answers_with_upgrade_marker");
+    }
+    let obs = format!(
+        "{kind:?} v{} {} bytes fields=[{}] inner=[{}] verdicts=[{}]",
+        ans.ver,
+        raw.len(),
+        ans.fields.iter().map(|f| format!("{:04x}:{}", f.ty, f.declared)).collect::<Vec<_>>().join(","),
+        opened.as_ref().map(|o| o.inner.iter().map(|f| format!("{:04x}:{}", f.ty, f.declared)).collect::<Vec<_>>().join(",")).unwrap_or_default(),
+        v.v.iter().map(|(c, _)| *c).collect::<Vec<_>>().join(",")
+    );
+    for (class, msg) in v.v {
+        findings.report(
+            class,
+            b.bytes.len(),
+            || format!("{msg}; request {} = {}; answer = {}", req.code(), common::hex(&b.bytes), common::hex(&raw)),
+            trace,
+        );
+    }
+    obs
+}
+
+fn all_states() -> Vec<Sync> {
+    let mut v = vec![];
+    for (si, stratum) in [1u8, 2, 16].into_iter().enumerate() {
+        for leap in 0u8..5 {
+            for root in 0..3 {
+                let (root_delay_exp, var_base, var_linear) = match root {
+                    0 => (None, 0.0, 0.0),
+                    1 => (Some(-1), 0.25, 0.0),
+                    _ => (Some(-4), 0.0, 1.0 / 64.0),
+                };
+                v.push(Sync {
+                    stratum,
+                    leap,
+                    refid: [u32::from_be_bytes(*b"GPS\0"), 0x7F00_0001, u32::from_be_bytes(*b"XNON")][si],
+                    root_delay_exp,
+                    var_base,
+                    var_linear,
+                    precision_exp: if root == 2 { -25 } else { -18 },
+                });
+            }
+        }
+    }
+    v
+}
+
+fn n_symbols(r: &Req) -> usize {
+    r.fields.iter().filter(|f| !matches!(f, Fld::Draft(true))).count()
+}
+
+fn replay(ctx: &Ctx, trace: &str) -> String {
+    // "<cfg>;<sync>;k<0|1>;<req code>;cut=<n>"
+    let p: Vec<&str> = trace.split(';').collect();
+    if p.len() != 5 {
+        return format!("unparseable trace {trace:?}");
+    }
+    let (Some(cfg), Some(sync), Some(req)) = (Cfg::parse(p[0]), Sync::parse(p[1]), Req::parse(p[3])) else {
+        return format!("unparseable trace {trace:?}");
+    };
+    let keys = key_env(p[2] == "k1");
+    let base = baselines(cfg, &sync, &keys);
+    let env = EnvC {
+        cfg,
+        sync,
+        keys,
+        base,
+    };
+    let full = build(&req, &env.keys);
+    let full_len = full.bytes.len().min(MAX_DATAGRAM);
+    let cut: usize = p[4].trim_start_matches("cut=").parse().unwrap_or(usize::MAX).min(full_len);
+    let b = full.truncated(cut);
+    let findings = Findings::new();
+    let mut server = make_server(cfg, &sync, &env.keys.server);
+    let obs = judge(&findings, None, &env, &mut server, &req, &b, cut, full_len);
+    findings.flush(ctx);
+    obs
+}
+
+#[test]
+fn check() {
+    let ctx = Ctx::new("C18");
+    if let Some(t) = common::replay_trace() {
+        let a = replay(&ctx, &t);
+        let b = replay(&ctx, &t);
+        common::report_replay("C18", &a, &b, ctx.violation_count() > 0);
+        return;
+    }
+    let thorough = !ctx.quick();
+    ctx.rule(
+        "grammar G of c16.rs with tagged contents. (a) all 45 synchronisation states {stratum 1,2,16} x {leap none,+1,-1,unknown,unsynchronised} x \
+         {root delay/dispersion 0/0, 0.5/0.5, 2^-4/0.5 via linear term} x requests of <=1 symbol, open configuration; (b) 6 states x requests of <=2 symbols; \
+         (c) {typical, unsynchronised} x all requests of <=3 symbols, open configuration; (d) configurations {denylist->DENY, require-NTS->DENY, \
+         allowlist-miss->DENY} x all requests (typical state); (e) every truncation of requests of <=2 symbols (open, typical; thorough: <=3). \
+         Distinct & non-trivial = an answered (environment, request, cut).",
+    );
+    ctx.assume("DENY/RATE/NTS-NAK answers are not required to echo the poll (NTPv5 encodes the kiss code in it, NTPv4 answers 0); their remaining header bytes are compared with the canonical answer of the same kind instead");
+    ctx.assume("a plain NTPv4 time answer may carry the NTPv5 upgrade marker 'NTP5DRFT' as reference timestamp iff the request carried it (version negotiation), this is not counted as reflection");
+    ctx.assume("root delay/dispersion are compared with a tolerance of one unit of the wire format (2^-15 s short format, 2^-26 s time32)");
+    ctx.assume("unique identifiers inside the encrypted part of a request may or may not be echoed (they are identifier fields of the request)");
+    let findings = Findings::new();
+    let reqs = grammar(thorough, 3);
+    ctx.set("grammar_requests", reqs.len() as u64);
+    let states = all_states();
+    ctx.set("sync_states", states.len() as u64);
+    let six: Vec<Sync> = vec![states[4], states[8], states[16], states[24], states[30], states[44]];
+    // (configuration, state, rotated, max symbols, truncation max symbols [0 = none])
+    let mut plan: Vec<(Cfg, Sync, bool, usize, usize)> = vec![];
+    for (i, s) in states.iter().enumerate() {
+        plan.push((Cfg::Open, *s, i % 2 == 0, 1, 0));
+    }
+    for (i, s) in six.iter().enumerate() {
+        plan.push((Cfg::Open, *s, i % 2 == 1, 2, 0));
+    }
+    plan.push((Cfg::Open, Sync::TYPICAL, true, 3, if thorough { 3 } else { 2 }));
+    plan.push((Cfg::Open, Sync::UNSYNC, false, 3, 0));
+    plan.push((Cfg::DenyList, Sync::TYPICAL, true, 3, 0));
+    plan.push((Cfg::RequireNtsDeny, Sync::TYPICAL, false, 3, 0));
+    plan.push((Cfg::AllowMissDeny, Sync::UNSYNC, true, 3, 0));
+    for (pi, (cfg, sync, rotated, max_sym, trunc_sym)) in plan.iter().enumerate() {
+        let keys = key_env(*rotated);
+        let base = baselines(*cfg, sync, &keys);
+        ctx.add("baselines", base.len() as u64);
+        let env = EnvC {
+            cfg: *cfg,
+            sync: *sync,
+            keys,
+            base,
+        };
+        let subset: Vec<&Req> = reqs.iter().filter(|r| n_symbols(r) <= *max_sym).collect();
+        common::par_for_with(
+            subset.len() as u64,
+            32,
+            || (Local::new(&ctx), make_server(env.cfg, &env.sync, &env.keys.server)),
+            |(loc, server), i| {
+                let req = subset[i as usize];
+                let mut full = build(req, &env.keys);
+                let mut capped = false;
+                if full.bytes.len() > MAX_DATAGRAM {
+                    full = full.truncated(MAX_DATAGRAM);
+                    capped = true;
+                }
+                let n = full.bytes.len();
+                loc.inc("cases");
+                let cuts: Vec<usize> = if n_symbols(req) <= *trunc_sym && *trunc_sym > 0 { (48..=n).collect() } else { vec![n] };
+                for cut in cuts {
+                    let b = if cut == n { full.clone() } else { full.truncated(cut) };
+                    // a request capped by the receive size is not "clean" (its tail is missing)
+                    let obs = judge(&findings, Some(loc), &env, server, req, &b, cut, if capped { usize::MAX } else { n });
+                    if obs != "ignored" {
+                        loc.distinct(common::hash_of(&(env.cfg.code(), env.sync.code(), req, cut)));
+                    }
+                }
+            },
+        );
+        if ctx.over_budget() && pi + 1 < plan.len() {
+            ctx.cap_hit(&format!("budget reached after {} of {} plan entries", pi + 1, plan.len()));
+            findings.flush(&ctx);
+            ctx.exhaustive(false);
+            ctx.finish();
+            return;
+        }
+    }
+    // samples
+    {
+        let keys = key_env(true);
+        let base = baselines(Cfg::Open, &Sync::TYPICAL, &keys);
+        let env = EnvC {
+            cfg: Cfg::Open,
+            sync: Sync::TYPICAL,
+            keys,
+            base,
+        };
+        let mut server = make_server(env.cfg, &env.sync, &env.keys.server);
+        for code in [
+            "v4.m3.p6.l0.g0.a0|u32,k24|m0",
+            "v4.m3.p10.l0.g1.a0||m0",
+            "v4.m3.p6.l0.g0.a0|u32,cC0,Aok(u32+k24)|m0",
+            "v4.m3.p6.l0.g0.a0|u32,cE0,Aok(u32+k24)|m0",
+            "v5.m3.p4.l0.g0.a0|u32,r16@0,k24,d1|m0",
+            "v5.m3.p4.l0.g0.a0|u32,cC0,p0,d1,Aok()|m0",
+        ] {
+            let r = Req::parse(code).unwrap();
+            let b = build(&r, &env.keys);
+            let f = Findings::new();
+            let o = judge(&f, None, &env, &mut server, &r, &b, b.bytes.len(), b.bytes.len());
+            ctx.sample(format!("{code} -> {o}"));
+        }
+    }
+    findings.flush(&ctx);
+    ctx.set("transitions", ctx.get("evaluations"));
+    ctx.set("states", ctx.get("cases"));
+    ctx.exhaustive(true);
+    ctx.finish();
+}
